@@ -110,6 +110,17 @@ def search(ctx):
         for m in ("#if 1\\na\\n#include \"h.h\"\\nb\\n#endif\\nc\\n", "#if 0\\na\\n#include \"h.h\"\\nb\\n#endif\\nc\\n",
                   "#include \"h.h\"\\nb\\n#endif\\nc\\n", "a\\n#include \"h.h\"\\nb\\n"):
             out.append("C11.raw\t\t%s\th.h=%s" % (m, h))
+    # one header visited twice (and three times), the macro its block tests defined in between, by the header itself,
+    # by the includer, or from the start; every shape of guard block
+    for hdr in ("#ifndef G\\n#define G\\nfirst\\n#else\\nsecond\\n#endif\\n", "#ifndef G\\nfirst\\n#else\\nsecond\\n#endif\\n",
+                "#ifndef G\\n#define G\\nfirst\\n#elif 1\\nsecond\\n#endif\\n", "#ifndef G\\n#define G\\nfirst\\n#endif\\n",
+                "#ifndef G\\n#define G\\nfirst\\n#else\\n#define B 2\\n#endif\\n", "#ifdef G\\nsecond\\n#else\\n#define G\\nfirst\\n#endif\\n",
+                "#if !defined(G)\\n#define G\\nfirst\\n#else\\nsecond\\n#endif\\n", "#pragma once\\n#ifndef G\\n#define G\\nfirst\\n#else\\nsecond\\n#endif\\n",
+                "pre\\n#ifndef G\\n#define G\\nfirst\\n#else\\nsecond\\n#endif\\n", "#ifndef G\\n#define G\\nfirst\\n#else\\nsecond\\n#endif\\npost\\n"):
+        for between in ("", "#define G\\n", "#undef G\\n", "#define G 1\\n#undef G\\n"):
+            out.append("C11.raw\t\t#include \"h.h\"\\n%s#include \"h.h\"\\nprobe G B\\n\th.h=%s" % (between, hdr))
+        out.append("C11.raw\tG=1\t#include \"h.h\"\\n#include \"h.h\"\\n#include \"h.h\"\\nprobe G B\\n\th.h=%s" % hdr)
+        out.append("C11.raw\t\t#include \"w.h\"\\n#include \"h.h\"\\n#include \"w.h\"\\nprobe G B\\n\th.h=%s\tw.h=#include \"h.h\"\\n" % hdr)
     for hostile in ("$", "#3", "#while", "#else junk", "#include <a", "#pragma bogus", "#define", "#include \"missing.h\""):
         out.append("C11.raw\t\t#if 0\\n%s\\n#endif\\nx\\n" % hostile)
         out.append("C11.raw\t\t#if 0\\n#if 1\\n%s\\n#endif\\n#endif\\nx\\n" % hostile)
@@ -272,6 +283,7 @@ SPEC = {
         "included_file_is_balanced", "includers_blocks_untouched", "include_cannot_touch_includers_chain",
         "if_closed_by_includers_endif_rejected", "else_of_other_file_rejected",
         "nonname_directive_ignored_when_skipped",
+        "include_arm_shape_agree", "include_is_processed_each_time", "guard_else_group_delivered_on_reinclude",
         "defined_is_protected", "cond_eval_composed", "composed_shape_agree"]],
     "harness": "c11",
     "nontrivial": nontrivial,
@@ -297,14 +309,25 @@ SPEC = {
                   "own: for every handler, file and includer state a successfully included file hands the condition "
                   "chain back unchanged, the includer's blocks are never touched meanwhile, and #endif / #else / an "
                   "unclosed #ifdef in an included file are rejected with EndIfNotMatched / ElseNotMatched / "
-                  "ConditionChainNotFinished (the former negation witnesses, now rejected end to end).",
+                  "ConditionChainNotFinished (the former negation witnesses, now rejected end to end); (5) an #include is "
+                  "proved to be processed every time it is met: the output produced so far is write-only, so what an "
+                  "include contributes depends only on the files' texts and (chain, base, macros, pragma-once set, depth) "
+                  "at that point (include_is_processed_each_time, by induction over token stream and include depth), "
+                  "and a guard block with an #else group delivers that group on a visit with the guard macro defined, "
+                  "for every includer state (guard_else_group_delivered_on_reinclude); the include arm of "
+                  "preprocess_command and FileLoader are pinned token for token (no exit other than skipped group / "
+                  "malformed operand / depth limit, no file memory other than pragma_once_files).",
     "rule": "requests through the real rssl_preprocess::preprocess: exhaustive directive sequences over the property's "
             "10-symbol alphabet up to length 6 (quick) / 7 (thorough); random sequences of length <= 25 over an extended "
             "alphabet; random #if conditions to depth 5 over literals {0,1,2,5,7,2^32-1,2^32,2^63,2^64-1}, macros and "
             "defined(); and raw multi-file source text (C11.raw: random directive spelling with blanks / comments / "
             "splices / CRLF, function-like and operator macros, 7 spellings of defined, hex/octal/u literals, unsupported "
             "operators and literal forms, 54 hostile lines inside skipped groups, 12 kinds of included files incl. chains "
-            "that cross the include boundary, API defines, nesting to depth 420). Observed = surviving token texts per "
+            "that cross the include boundary, API defines, nesting to depth 420; and a re-include stream: 1-3 headers out "
+            "of 18 guard shapes - pure guard, guard with #else / #elif, text outside, #pragma once, nested guards, guard "
+            "defined by the includer or the API, header that undefines its guard, inverted guard, wrappers - each "
+            "included 2-6 times directly and through other headers with #define/#undef of the tested macros in "
+            "between). Observed = surviving token texts per "
             "line or the error variant; oracle = independent reference C preprocessors written in Rust (one on the "
             "symbolic requests, one on the raw text: translation phases 2-4, Prosser macro expansion, full C "
             "constant-expression grammar, per-file if-section balance); non-trivial = the request has an #if-like line, "
@@ -315,7 +338,8 @@ SPEC = {
         "ConditionChain::new/push/switch/pop/is_active incl. the seen_else test and the file base, the name split and "
         "the skip gating of every preprocess_command arm, BinOp::apply, every parse_pN::parse_op, parse_p2, parse_leaf, "
         "MAX_INCLUDE_DEPTH, the per-file block count of preprocess_included_file (enter / check / restore), the "
-        "line-break test on API defines, that `defined` is tested before the macro loop and only in #if/#elif) and tools/gens/c12.py (MacroTables, used by the imported C12 macro model) — "
+        "line-break test on API defines, the exact statement sequence of the #include arm, the field list of struct "
+        "FileLoader and the tail of FileLoader::load, that `defined` is tested before the macro loop and only in #if/#elif) and tools/gens/c12.py (MacroTables, used by the imported C12 macro model) — "
         "re-run on /repo's working tree every time",
         "hand-written recursion scheme of Model/CondExpr.lean, line processing of Model/CondChain.lean, and the "
         "composed token-level Model/CondFile.lean (built on C12's Model/Macro.lean + Model/Include.lean); tied to the "
